@@ -200,29 +200,32 @@ Qed.
 Definition line_of (cell_cap : N) (r : list cell) : bytes :=
   join [44] (map (cell_to_string cell_cap) r) ++ [10].
 
-Lemma row_loop_spec cell_cap row_cap budget : forall rows n body n' body' t,
-  row_loop cell_cap row_cap budget rows n body = (n', body', t) ->
-  n <= n' /\ (n <= row_cap -> n' <= row_cap) /\
-  (blen body <= budget -> blen body' <= budget) /\
+Lemma row_loop_spec cell_cap row_cap budget : forall rows n bl n' ls t,
+  row_loop cell_cap row_cap budget rows n bl = (n', ls, t) ->
+  (n <= row_cap -> n' <= row_cap) /\
+  (bl <= budget -> bl + blen (concat ls) <= budget) /\
   exists k, n' = n + N.of_nat k /\ (k <= length rows)%nat /\
-            body' = body ++ concat (map (line_of cell_cap) (firstn k rows)) /\
+            ls = map (line_of cell_cap) (firstn k rows) /\
             (t = false -> k = length rows).
 Proof.
-  induction rows as [|r rest IH]; intros n body n' body' t H; cbn [row_loop] in H.
-  - injection H as <- <- <-. repeat split; try lia.
-    exists 0%nat. cbn. rewrite app_nil_r. repeat split; lia.
+  induction rows as [|r rest IH]; intros n bl n' ls t H; cbn [row_loop] in H.
+  - injection H as <- <- <-. split; [lia|]. split; [cbn; change (blen []) with 0; lia|].
+    exists 0%nat. cbn. repeat split; lia.
   - destruct (row_cap <=? n) eqn:Ec.
-    { injection H as <- <- <-. repeat split; try lia.
-      exists 0%nat. cbn. rewrite app_nil_r. repeat split; try lia; try discriminate. }
-    destruct (budget <? blen body + blen (join [44] (map (cell_to_string cell_cap) r)) + 1) eqn:Eb.
-    { injection H as <- <- <-. repeat split; try lia.
-      exists 0%nat. cbn. rewrite app_nil_r. repeat split; try lia; try discriminate. }
-    apply IH in H. destruct H as (H1 & H2 & H3 & k & Hk1 & Hk2 & Hk3 & Hk4).
-    repeat split; try lia.
-    + intro Hb. apply H3. rewrite !blen_app. change (blen [10]) with 1. lia.
-    + exists (S k). cbn [firstn map concat length].
+    { injection H as <- <- <-. split; [lia|]. split; [cbn; change (blen []) with 0; lia|].
+      exists 0%nat. cbn. repeat split; try lia; try discriminate. }
+    destruct (budget <? bl + blen (join [44] (map (cell_to_string cell_cap) r)) + 1) eqn:Eb.
+    { injection H as <- <- <-. split; [lia|]. split; [cbn; change (blen []) with 0; lia|].
+      exists 0%nat. cbn. repeat split; try lia; try discriminate. }
+    destruct (row_loop cell_cap row_cap budget rest (n + 1) (bl + blen (join [44] (map (cell_to_string cell_cap) r)) + 1))
+      as [[n1 ls1] t1] eqn:ER.
+    injection H as <- <- <-.
+    apply IH in ER. destruct ER as (H2 & H3 & k & Hk1 & Hk2 & Hk3 & Hk4).
+    split; [lia|]. split.
+    + intro Hb. cbn [concat]. rewrite !blen_app. change (blen [10]) with 1. lia.
+    + exists (S k). cbn [firstn map length].
       split; [lia|]. split; [lia|]. split.
-      * rewrite Hk3. unfold line_of. rewrite <- !app_assoc. reflexivity.
+      * rewrite Hk3. reflexivity.
       * intro Ht. rewrite (Hk4 Ht). reflexivity.
 Qed.
 
@@ -253,35 +256,37 @@ Theorem format_rows_caps cell_cap row_cap byte_cap cols rows te o :
 Proof.
   unfold format_rows. set (budget := N.max (byte_cap - reserve) 1).
   set (h := join [44] cols).
+  assert (Main : forall header t0, blen header + 1 <= budget -> (header = h \/ t0 = true) ->
+            forall n ls t1, row_loop cell_cap row_cap budget rows 0 (blen header + 1) = (n, ls, t1) ->
+            (if negb t1 && te then None
+             else Some (mk_fmt n (t0 || t1) (summary n (t0 || t1) ++ [10] ++ header ++ [10] ++ concat ls))) = Some o ->
+            f_n o <= row_cap /\
+            (reserve + 1 <= byte_cap -> blen (f_text o) <= byte_cap) /\
+            exists header0, blen header0 + 1 <= budget /\ (header0 = h \/ f_trunc o = true) /\
+              f_text o = summary (f_n o) (f_trunc o) ++ [10] ++ header0 ++ [10]
+                         ++ concat (map (line_of cell_cap) (firstn (N.to_nat (f_n o)) rows)) /\
+              (f_n o <= N.of_nat (length rows)) /\
+              (f_trunc o = false -> f_n o = N.of_nat (length rows) /\ header0 = h)).
+  { intros header t0 Hhl Hh n ls t1 ER H.
+    destruct (negb t1 && te); [discriminate|]. injection H as <-. cbn [f_n f_trunc f_text].
+    apply row_loop_spec in ER. destruct ER as (H2 & H3 & k & Hk1 & Hk2 & Hk3 & Hk4).
+    split; [lia|]. split.
+    - intro Hc. specialize (H3 Hhl).
+      eapply N.le_trans; [apply (blen_text n (t0 || t1) (header ++ [10] ++ concat ls))|].
+      rewrite !blen_app. change (blen [10]) with 1. subst budget. unfold reserve in *. lia.
+    - exists header. split; [exact Hhl|]. split.
+      + destruct Hh as [-> | ->]; [left; reflexivity|right; reflexivity].
+      + split; [|split; [lia|]].
+        * rewrite Hk3. replace (N.to_nat n) with k by lia. reflexivity.
+        * intro Ht. apply orb_false_iff in Ht. destruct Ht as [Ht0 Ht1].
+          split; [rewrite (Hk4 Ht1) in Hk1; lia|]. destruct Hh as [-> | ->]; [reflexivity|discriminate]. }
   destruct (budget <? blen h + 1) eqn:Eh.
-  - (* header truncated *)
-    set (header := firstn (N.to_nat (budget - 1)) h).
-    destruct (row_loop cell_cap row_cap budget rows 0 (header ++ [10])) as [[n body] t1] eqn:ER.
-    destruct (negb t1 && te); [discriminate|]. intro H. injection H as <-. cbn [f_n f_trunc f_text orb].
-    apply row_loop_spec in ER. destruct ER as (H1 & H2 & H3 & k & Hk1 & Hk2 & Hk3 & Hk4).
-    assert (Hhl : blen header + 1 <= budget).
-    { pose proof (blen_firstn (N.to_nat (budget - 1)) h). fold header in H. subst budget. lia. }
-    assert (Hb : blen body <= budget).
-    { apply H3. rewrite blen_app. change (blen [10]) with 1. exact Hhl. }
-    split; [lia|]. split.
-    + intro Hc. eapply N.le_trans; [apply (blen_text n true body)|].
-      subst budget. unfold reserve in *. lia.
-    + exists header. split; [exact Hhl|]. split; [right; reflexivity|]. split; [|split; [lia|discriminate]].
-      rewrite Hk3. replace (N.to_nat n) with k by lia.
-      unfold summary. cbn [app]. rewrite <- !app_assoc. cbn [app]. reflexivity.
-  - destruct (row_loop cell_cap row_cap budget rows 0 (h ++ [10])) as [[n body] t1] eqn:ER.
-    destruct (negb t1 && te); [discriminate|]. intro H. injection H as <-. cbn [f_n f_trunc f_text orb].
-    apply row_loop_spec in ER. destruct ER as (H1 & H2 & H3 & k & Hk1 & Hk2 & Hk3 & Hk4).
-    assert (Hhl : blen h + 1 <= budget) by lia.
-    assert (Hb : blen body <= budget).
-    { apply H3. rewrite blen_app. change (blen [10]) with 1. exact Hhl. }
-    split; [lia|]. split.
-    + intro Hc. eapply N.le_trans; [apply (blen_text n t1 body)|].
-      subst budget. unfold reserve in *. lia.
-    + exists h. split; [exact Hhl|]. split; [left; reflexivity|]. split; [|split; [lia|]].
-      * rewrite Hk3. replace (N.to_nat n) with k by lia.
-        unfold summary. cbn [app]. rewrite <- !app_assoc. cbn [app]. reflexivity.
-      * intro Ht. split; [|reflexivity]. rewrite (Hk4 Ht) in Hk1. lia.
+  - set (header := firstn (N.to_nat (budget - 1)) h).
+    destruct (row_loop cell_cap row_cap budget rows 0 (blen header + 1)) as [[n ls] t1] eqn:ER.
+    intro H. apply (Main header true) with (n := n) (ls := ls) (t1 := t1); try assumption; [|right; reflexivity].
+    pose proof (blen_firstn (N.to_nat (budget - 1)) h) as Hf. fold header in Hf. subst budget. lia.
+  - destruct (row_loop cell_cap row_cap budget rows 0 (blen h + 1)) as [[n ls] t1] eqn:ER.
+    intro H. apply (Main h false) with (n := n) (ls := ls) (t1 := t1); try assumption; [lia|left; reflexivity].
 Qed.
 
 (** every cell is bounded *)
@@ -373,7 +378,7 @@ Theorem check_implies_holds c :
 Proof.
   destruct c as [q cap obs|cc rc bc cols rows obs|]; intros Hk H; [| |contradiction]; cbn [check_case holds_on] in *.
   - apply sres_eqb_eq in H. destruct obs as [s| | |]; try reflexivity.
-    apply sanitize_ok in H. destruct H as (_ & H1 & H2 & _). rewrite H1, H2. reflexivity.
+    apply sanitize_ok in H. destruct H as (_ & H1 & H2 & H3 & _). rewrite H1, H2, H3. reflexivity.
   - destruct (format_rows cc rc bc cols rows false) as [o|] eqn:Ef; destruct obs as [[text n]|];
       cbn [option_map opt_eqb fst snd] in H; try discriminate; try reflexivity.
     apply andb_true_iff in H. destruct H as [Ht Hn]. apply beqb_eq in Ht. apply N.eqb_eq in Hn. subst.
